@@ -147,9 +147,10 @@ def shape_binop(item, ob):
     ob.absorb_engine(E)
 
 def py_div_euclid(a, b):
-    q = math.trunc(a / b)
+    q = float(math.trunc(a / b))
+    if q == 0: q = math.copysign(0.0, a / b)          # f64::trunc keeps the sign of zero
     if math.fmod(a, b) < 0: return q - 1 if b > 0 else q + 1
-    return float(q)
+    return q
 def py_rem_euclid(a, b):
     r = math.fmod(a, b); return r + abs(b) if r < 0 else r
 
